@@ -47,34 +47,37 @@ package util
 //@   ensures len(result) == n && freshbase(result)
 
 //@ func (*Buffer).Len
-//@   props C16
+//@   props C16 C13
 //@   requires bwf(b)
 //@   ensures result == len(b.buf) - b.off && result >= 0
 
 //@ func (*Buffer).Reset
-//@   props C16
+//@   props C16 C13
 //@   requires bwf(b)
 //@   ensures bwf(b) && len(b.buf) == 0 && b.off == 0 && samebase(b.buf, old(b.buf)) && cap(b.buf) == cap(old(b.buf))
 //@   modifies b.buf, b.off
 
 //@ func (*Buffer).tryGrowByReslice
-//@   props C16
+//@   props C16 C13
 //@   requires bwf(b) && n >= 0
 //@   ensures [grown] ret1 ==> (ret0 == len(old(b.buf)) && len(b.buf) == ret0 + n && samebase(b.buf, old(b.buf)) && cap(b.buf) == cap(old(b.buf)))
-//@   ensures [not-grown] !ret1 ==> (sameslice(b.buf, old(b.buf)) && n > cap(b.buf) - len(b.buf))
+//@   ensures [not-grown] !ret1 ==> (sameslice(b.buf, old(b.buf)) && cap(b.buf) == cap(old(b.buf)) && n > cap(b.buf) - len(b.buf))
 //@   ensures b.off == old(b.off)
 //@   modifies b.buf
 
 //@ func (*Buffer).grow
-//@   props C16
+//@   props C16 C13
 //@   requires bwf(b) && 0 <= n && n <= 1099511627776
 //@   ensures bwf(b)
 //@   ensures [length] len(b.buf) - b.off == (len(old(b.buf)) - old(b.off)) + n
 //@   ensures [index] result == len(b.buf) - n && result >= b.off
+//@   ensures [offset-stays-zero] old(b.off) == 0 ==> b.off == 0
+//@   ensures [own-buffer] (samebase(b.buf, old(b.buf)) && cap(b.buf) == cap(old(b.buf))) || freshbase(b.buf)
+//@   modifies b.buf, b.off, b.buf[:cap(b.buf)]
 //@   ensures [content] forall k int :: 0 <= k && k < len(old(b.buf)) - old(b.off) ==> b.buf[b.off + k] == old(b.buf)[old(b.off) + k]
 
 //@ func (*Buffer).Alloc
-//@   props C16
+//@   props C16 C13
 //@   requires bwf(b) && 0 <= n && n <= 1099511627776
 //@   ensures bwf(b)
 //@   ensures [exact] len(result) == n
@@ -91,3 +94,15 @@ package util
 //@ func (*BufferPool).Put
 //@   trusted
 //@   modifies nothing
+
+// Write appends p (blocks are built in buffers that are never read from: offset 0).
+//@ func (*Buffer).Write
+//@   props C13
+//@   requires bwf(b) && b.off == 0 && len(p) <= 1099511627776 && len(b.buf) <= 1099511627776 && !sameblock(p, b.buf)
+//@   ensures err == nil && n == len(p) && bwf(b) && b.off == 0
+//@   ensures [length] len(b.buf) == len(old(b.buf)) + len(p)
+//@   ensures [prefix-kept] forall k int :: 0 <= k && k < len(old(b.buf)) ==> b.buf[k] == old(b.buf)[k]
+//@   ensures [appended] forall k int :: 0 <= k && k < len(p) ==> b.buf[len(old(b.buf)) + k] == p[k]
+//@   ensures [argument-kept] unchanged(p)
+//@   ensures [own-buffer] (samebase(b.buf, old(b.buf)) && cap(b.buf) == cap(old(b.buf))) || freshbase(b.buf)
+//@   modifies b.buf, b.off, b.buf[:cap(b.buf)]
